@@ -42,7 +42,10 @@ struct Impl {
 fn answer(tag: &str, method: &str, log: &Log, req: Request<Msg>) -> Result<Response<Msg>, Status> {
     log.lock().unwrap().push(format!("{tag}.{method}"));
     let m = req.into_inner();
-    if m.s == "fail" {
+    if m.s == "fail-bare" {
+        // an error status that carries headers but no message
+        Err(Status::new(StatusCode::BadRequest).with_header("why", "because").with_header("retry-after-ms", "250"))
+    } else if m.s == "fail" {
         // the handler's own message must win over a forwarded "status-message" header
         Err(Status::new_with_message(StatusCode::BadRequest, format!("no {}", m.a))
             .with_header("why", "because")
@@ -196,7 +199,8 @@ pub fn replay(a: &Args) -> i32 {
             (Err(s), "err") => {
                 s.status().to_u16() as u64 == exp["code"].as_u64().unwrap()
                     && (exp["code"] != 400 || (s.headers().get("why").map(|x| x.as_str()) == Some("because")
-                        && format!("{s:?}").contains(&format!("no {n}"))))
+                        && (row["handler"] == "status_bare" && s.headers().get("retry-after-ms").map(|x| x.as_str()) == Some("250")
+                            || format!("{s:?}").contains(&format!("no {n}")))))
             }
             _ => false,
         };
@@ -208,7 +212,7 @@ pub fn replay(a: &Args) -> i32 {
         let handler = row["handler"].as_str().unwrap();
         let payload = row["payload"].as_str().unwrap();
         for n in 0..6u32 {
-            let msg = Msg { a: n, s: if handler == "ok" { "hi".into() } else { "fail".into() } };
+            let msg = Msg { a: n, s: match handler { "ok" => "hi".into(), "status_bare" => "fail-bare".into(), _ => "fail".into() } };
             macro_rules! typed {
                 ($client:expr, $method:ident, $want:expr) => {{
                     evaluations += 1;
